@@ -607,6 +607,12 @@ def run_first_element_of_ordered_only(chk: Check, ix) -> None:
             continue
         for c, x, ok in _first_of_sites(f.node):
             n += 1
+            if not ok:
+                # the resolver may know the container's type (an attribute or a typed local)
+                t = Resolver(ix).type_of(x, f)
+                ms = members(t)
+                if ms and all(m_[0] in ("list", "dict", "tuple", "str") for m_ in ms):
+                    ok = True
             key = f"{q}: next(iter({norm(x)[:40]})) is applied to an ordered container"
             if ok:
                 r8.ok(key, f.loc(c))
